@@ -208,7 +208,7 @@ func (r *Run) Finish(c Coverage) {
 		"wall_s":      time.Since(r.start).Seconds(),
 		"violations":  unlisted,
 	}
-	if ev["assumptions"] == nil {
+	if r.Assume == nil {
 		ev["assumptions"] = []string{}
 	}
 	b, err := json.MarshalIndent(ev, "", " ")
@@ -218,7 +218,11 @@ func (r *Run) Finish(c Coverage) {
 	}
 	edir := filepath.Join(VerifRoot, "evidence")
 	os.MkdirAll(edir, 0o755)
-	if err := os.WriteFile(filepath.Join(edir, r.ID+".json"), append(b, '\n'), 0o644); err != nil {
+	evName := r.ID + ".json"
+	if r.Replay != "" {
+		evName = r.ID + ".replay.json" // a replay must not clobber the evidence of the last real run
+	}
+	if err := os.WriteFile(filepath.Join(edir, evName), append(b, '\n'), 0o644); err != nil {
 		fmt.Fprintf(os.Stderr, "evidence write: %s\n", err)
 		os.Exit(2)
 	}
